@@ -26,9 +26,11 @@ class Alias:
 
 
 class Ptr:
-    """An abstract non-null address (string literal, address-of)."""
-    def __init__(self, what):
+    """An abstract non-null address.  Ptr('H') names an abstract heap object whose fields are 'H->f';
+    Ptr('x.y', addr=True) is the address of the lvalue x.y, whose fields are 'x.y.f'."""
+    def __init__(self, what, addr=False):
         self.what = what
+        self.addr = addr
 
     def __repr__(self):
         return "&" + str(self.what)
@@ -129,7 +131,10 @@ class Interp:
                 continue
             if isinstance(v, Ptr) and isinstance(v.what, str) and v.what[:4] not in ("str:", "arr:") and not v.what.startswith("fn:") \
                     and v.what != base:
-                key = v.what + key[k:]
+                if getattr(v, "addr", False) and ("[" in v.what or "." in v.what or "->" in v.what):
+                    key = v.what + "." + key[k + 2:]      # p = &x[i]  =>  p->f is x[i].f
+                else:
+                    key = v.what + key[k:]
                 continue
             # second component: S->g where S->g holds an abstract object
             k2 = key.find("->", k + 2)
@@ -279,7 +284,7 @@ class Interp:
             op = e["op"]
             if op == "&":
                 kk = self.key_of(p, e["e"])
-                return Ptr(kk if kk is not None else lvalue_key(e["e"], fn))
+                return Ptr(kk if kk is not None else lvalue_key(e["e"], fn), addr=True)
             if op == "*":
                 return self.read(p, self.key_of(p, e))
             if op in ("post++", "post--", "pre++", "pre--"):
